@@ -1,38 +1,20 @@
-"""Per-property configuration used by ./check (what to build, what is trusted)."""
+"""Per-property configuration used by ./check: one file per property under tools/reg/
+(`PROP` = what to build / what is trusted, `LEVEL` = the MANIFEST level text)."""
+import glob
+import importlib.util
+import os
+import sys
 
-TB_COMMON = [
-    "Lean 4.33.0 kernel (re-checked by leanchecker in the thorough tier)",
-    "axioms: at most propext, Classical.choice, Quot.sound (audited by #print axioms on every property theorem each run); no native_decide, no bv_decide, no own axioms, no sorry",
-    "hand-written Lean model tied to /repo by the correspondence check of the Rust harness (path dependencies on /repo/crates/*, rebuilt every run)",
-    "the harness (generators, canonicalisers, codecs), tools/gen.py and ./check",
-]
+_REG = os.path.join(os.path.dirname(os.path.abspath(__file__)), "reg")
+sys.path.insert(0, _REG)
+from common import TB_COMMON  # noqa: E402,F401
 
-PROPS = {
-    "C25": {
-        "lean_modules": ["CapyV.Props.C25"],
-        "level": "proof",
-        "trusted_base": TB_COMMON + [
-            "std slice::partition_point contract (returns the size of the true prefix of a partitioned slice); its precondition is the theorem lineStarts_strictMono",
-            "str::match_indices('\\n') yields exactly the byte indices of 0x0A",
-            "modelled, not verified: Diagnostic::display / input_snippet only through the `--> at f:L:C` header (start_line+1, start_col+1)",
-        ],
-        "assumptions": [
-            "offsets are <= text length (the property's quantifier)",
-            "text shorter than 2^32 bytes (TextSize is u32)",
-        ],
-    },
-    "C17": {
-        "lean_modules": ["CapyV.Props.C17"],
-        "level": "proof",
-        "trusted_base": TB_COMMON + [
-            "hook codegen::verif::layouts (calls calc_layouts and the GetLayoutInfo accessors unchanged)",
-            "layout arithmetic modelled in Nat; the code uses u32 (stride_rounds_up carries the explicit no-overflow hypothesis size+align-1 < 2^32)",
-            "well-formedness guard wf/okPw: integer widths {0,8,16,32,64,128,255}, float widths {0,32,64}, pointer widths {16,32,64} — the only ones the front end / Cranelift produce",
-            "host gcc (thorough tier only) as the oracle for C struct offsets",
-        ],
-        "assumptions": [
-            "types are well-formed (widths as above)",
-            "the process-wide LAYOUTS table is used with a single pointer width per process (switching widths panics in calc_layouts; reachable only by compiling for two targets in one process, which the CLI never does)",
-        ],
-    },
-}
+PROPS = {}
+LEVEL_TEXT = {}
+for _path in sorted(glob.glob(os.path.join(_REG, "C*.py"))):
+    _pid = os.path.basename(_path)[:-3]
+    _spec = importlib.util.spec_from_file_location("reg_" + _pid, _path)
+    _mod = importlib.util.module_from_spec(_spec)
+    _spec.loader.exec_module(_mod)
+    PROPS[_pid] = _mod.PROP
+    LEVEL_TEXT[_pid] = tuple(_mod.LEVEL)
